@@ -24,6 +24,9 @@ use tantivy_common::{BitSet, OwnedBytes, ReadOnlyBitSet};
 use vh::trace::Tracer;
 use vh::Args;
 
+/// also look up value ranges that lie entirely below the minimum of the column (recorded finding)
+static BELOW_MIN: std::sync::atomic::AtomicBool = std::sync::atomic::AtomicBool::new(false);
+
 #[derive(Clone, Debug)]
 enum V {
     U(u64),
@@ -184,6 +187,9 @@ fn gen_value(kind: &str, pattern: &str, i: usize, n: usize, rng: &mut StdRng, sa
         "bits" => 1u64 << rng.random_range(0..64),
         "clusters" => [5u64, 1 << 20, 1 << 40, (1 << 62) + 17][rng.random_range(0..4)] + rng.random_range(0..40),
         "sorted" => (i as u64) / 3,
+        "above32" => (1u64 << 32) + rng.random_range(0..300),
+        "gcd32" => (1u64 << 32) + 1000 * rng.random_range(0..200u64),
+        "wide31" => rng.random_range(0..(1u64 << 31)) + 5,
         "extremes" => *[0u64, 1, u64::MAX, u64::MAX - 1, 1 << 63, (1 << 63) - 2, 1 << 32].choose(rng).unwrap(),
         _ => rng.random(),
     };
@@ -312,7 +318,7 @@ fn card_str(c: Cardinality) -> &'static str {
 }
 
 fn read_typed<T: Copy + PartialOrd + Send + Sync + std::fmt::Debug + 'static>(
-    col: &Column<T>, key: &str, ty: &str, certs: &Certs, conv: &dyn Fn(T) -> V, rng: &mut StdRng, unknown: &mut Vec<String>,
+    col: &Column<T>, key: &str, ty: &str, certs: &Certs, conv: &dyn Fn(T) -> V, far: &dyn Fn(T, T) -> Vec<T>, rng: &mut StdRng, unknown: &mut Vec<String>,
 ) -> Value {
     let n = col.num_docs();
     let mut off = vec![0usize];
@@ -338,15 +344,37 @@ fn read_typed<T: Copy + PartialOrd + Send + Sync + std::fmt::Debug + 'static>(
         off.push(flat.len());
     }
     let (mn, mx) = (conv(col.min_value()), conv(col.max_value()));
-    // value ranges between values that were read
+    // value ranges: between values that were read, and with bounds far outside the column (around
+    // min + 2^32, 2^33, the extremes of the type, below the minimum).  A bound is logged as its place
+    // in the certificate: lo = number of values below it, hiu = number of values up to it.
     let mut ranges = vec![];
+    let mut one = |lo: T, hi: T, ranges: &mut Vec<Value>| {
+        let mut out = vec![];
+        col.get_docids_for_value_range(lo..=hi, 0..n, &mut out);
+        ranges.push(json!({"lo":certs.below(key, &conv(lo)),"hiu":certs.upto(key, &conv(hi)),"rows":out}));
+    };
     if !vals.is_empty() {
-        for k in 0..5 {
+        for k in 0..4 {
             let (a, b) = (vals[rng.random_range(0..vals.len())], vals[rng.random_range(0..vals.len())]);
             let (lo, hi) = if k == 0 { (a, a) } else if vcmp(&conv(a), &conv(b)) == Ordering::Greater { (b, a) } else { (a, b) };
-            let mut out = vec![];
-            col.get_docids_for_value_range(lo..=hi, 0..n, &mut out);
-            ranges.push(json!({"lo":certs.rank(key, &conv(lo)),"hi":certs.rank(key, &conv(hi)),"rows":out}));
+            one(lo, hi, &mut ranges);
+        }
+        let fars = far(col.min_value(), col.max_value());
+        let some = vals[rng.random_range(0..vals.len())];
+        for (i, &f) in fars.iter().enumerate() {
+            // [value read, far bound] or [far bound, value read], and pairs of far bounds
+            if vcmp(&conv(some), &conv(f)) != Ordering::Greater {
+                one(some, f, &mut ranges);
+            } else {
+                one(f, some, &mut ranges);
+            }
+            if let Some(&g) = fars.get(i + 3) {
+                // (a range entirely below the column's minimum is a recorded finding: only on request)
+                let below_min = vcmp(&conv(g), &conv(col.min_value())) == Ordering::Less;
+                if vcmp(&conv(f), &conv(g)) != Ordering::Greater && (!below_min || BELOW_MIN.load(std::sync::atomic::Ordering::SeqCst)) {
+                    one(f, g, &mut ranges);
+                }
+            }
         }
     }
     json!({"key":key,"type":ty,"card":card_str(col.get_cardinality()),"nrows":n,"off":off,"flat":flat,"first_ok":firsts_ok,
@@ -380,12 +408,54 @@ fn read_bytes_col(col: &BytesColumn, key: &str, is_str: bool, certs: &Certs, unk
 fn read_dynamic(name: &str, dc: DynamicColumn, certs: &Certs, rng: &mut StdRng, unknown: &mut Vec<String>) -> Value {
     let key = |c: &str| format!("{name}|{c}");
     match dc {
-        DynamicColumn::U64(c) => read_typed(&c, &key("num"), "u64", certs, &|v| V::U(v), rng, unknown),
-        DynamicColumn::I64(c) => read_typed(&c, &key("num"), "i64", certs, &|v| V::I(v), rng, unknown),
-        DynamicColumn::F64(c) => read_typed(&c, &key("num"), "f64", certs, &|v| V::F(v), rng, unknown),
-        DynamicColumn::Bool(c) => read_typed(&c, &key("bool"), "bool", certs, &|v| V::B(v), rng, unknown),
-        DynamicColumn::DateTime(c) => read_typed(&c, &key("date"), "date", certs, &|v: DateTime| V::D(v.into_timestamp_nanos()), rng, unknown),
-        DynamicColumn::IpAddr(c) => read_typed(&c, &key("ip"), "ip", certs, &|v: Ipv6Addr| V::Ip(u128::from(v)), rng, unknown),
+        DynamicColumn::U64(c) => read_typed(&c, &key("num"), "u64", certs, &|v| V::U(v), &|mn: u64, mx: u64| {
+            let mut v = vec![0, mn.saturating_sub(1), mn.saturating_sub(1 << 32)];
+            for b in [mn, mx] {
+                for d in [(1u64 << 32) - 1, 1 << 32, (1 << 32) + 1, (1 << 32) + 1000, 1 << 33, (1 << 33) + 7, 3 << 32, 1 << 40] {
+                    v.push(b.saturating_add(d));
+                }
+            }
+            v.extend([u32::MAX as u64, 1 << 32, (1 << 32) + 5, 1 << 33, u64::MAX - 1, u64::MAX]);
+            v.sort();
+            v.dedup();
+            v
+        }, rng, unknown),
+        DynamicColumn::I64(c) => read_typed(&c, &key("num"), "i64", certs, &|v| V::I(v), &|mn: i64, mx: i64| {
+            let mut v = vec![i64::MIN, i64::MIN + 1, mn.saturating_sub(1), mn.saturating_sub(1 << 32), -1, 0];
+            for b in [mn, mx] {
+                for d in [(1i64 << 32) - 1, 1 << 32, (1 << 32) + 1, (1 << 32) + 1000, 1 << 33, (1 << 33) + 7, 3 << 32, 1 << 40] {
+                    v.push(b.saturating_add(d));
+                }
+            }
+            v.extend([u32::MAX as i64, 1 << 32, (1 << 32) + 5, 1 << 33, i64::MAX - 1, i64::MAX]);
+            v.sort();
+            v.dedup();
+            v
+        }, rng, unknown),
+        DynamicColumn::F64(c) => read_typed(&c, &key("num"), "f64", certs, &|v| V::F(v), &|mn: f64, mx: f64| {
+            let mut v = vec![f64::NEG_INFINITY, f64::MIN, mn - 1.0, -0.0, 0.0, mx + 4294967296.0, mx + 8589934592.0, 4294967296.0, 4294967301.0, f64::MAX, f64::INFINITY];
+            v.retain(|x| !x.is_nan());
+            v.sort_by(|a, b| a.total_cmp(b));
+            v.dedup_by(|a, b| a.to_bits() == b.to_bits());
+            v
+        }, rng, unknown),
+        DynamicColumn::Bool(c) => read_typed(&c, &key("bool"), "bool", certs, &|v| V::B(v), &|_, _| vec![false, true], rng, unknown),
+        DynamicColumn::DateTime(c) => read_typed(&c, &key("date"), "date", certs, &|v: DateTime| V::D(v.into_timestamp_nanos()), &|mn: DateTime, mx: DateTime| {
+            let (a, b) = (mn.into_timestamp_nanos(), mx.into_timestamp_nanos());
+            let mut v = vec![i64::MIN, a.saturating_sub(1), a.saturating_add((1 << 32) - 1), a.saturating_add(1 << 32), a.saturating_add((1 << 32) + 5), a.saturating_add(1 << 33),
+                             b.saturating_add(1 << 32), b.saturating_add((1 << 33) + 7), b.saturating_add(1 << 45), i64::MAX - 1, i64::MAX];
+            v.sort();
+            v.dedup();
+            v.into_iter().map(DateTime::from_timestamp_nanos).collect()
+        }, rng, unknown),
+        DynamicColumn::IpAddr(c) => read_typed(&c, &key("ip"), "ip", certs, &|v: Ipv6Addr| V::Ip(u128::from(v)), &|mn: Ipv6Addr, mx: Ipv6Addr| {
+            let (a, b) = (u128::from(mn), u128::from(mx));
+            let mut v = vec![0u128, a.saturating_sub(1), a.saturating_add((1 << 32) - 1), a.saturating_add(1 << 32), a.saturating_add((1 << 32) + 5), a.saturating_add(1 << 33),
+                             b.saturating_add(1 << 32), b.saturating_add(1 << 33), b.saturating_add(1 << 64), u128::MAX - 1, u128::MAX];
+            v.sort();
+            v.dedup();
+            v.into_iter().map(Ipv6Addr::from).collect()
+        }, rng, unknown),
         DynamicColumn::Str(c) => {
             let b: BytesColumn = c.into();
             read_bytes_col(&b, &key("str"), true, certs, unknown)
@@ -650,7 +720,29 @@ fn run_index(tracer: &Tracer, case: &Value) {
                 }
             }
             let alive: Vec<u32> = sr.doc_ids_alive().collect();
-            tracer.emit(json!({"ev":"read","t":0,"phase":phase,"seg":ord,"nrows":sr.max_doc(),"rows":rows,"alive":alive,"cols":cols,"unknown":unknown}));
+            // the same lookups through RangeQuery on the fast fields u and i (bounds far outside the values too)
+            let mut queries = vec![];
+            let ufield = schema.get_field("u").unwrap();
+            let ifield = schema.get_field("i").unwrap();
+            let mut run_q = |key: &str, lo: V, hi: V, lt: Term, ht: Term| {
+                let q = tantivy::query::RangeQuery::new(std::ops::Bound::Included(lt), std::ops::Bound::Included(ht));
+                match catch_unwind(AssertUnwindSafe(|| s.search(&q, &tantivy::collector::DocSetCollector))) {
+                    Ok(Ok(set)) => {
+                        let mut r: Vec<u32> = set.iter().filter(|a| a.segment_ord as usize == ord).map(|a| a.doc_id).collect();
+                        r.sort();
+                        queries.push(json!({"key":key,"lo":certs.below(key, &lo),"hiu":certs.upto(key, &hi),"rows":r}));
+                    }
+                    Ok(Err(e)) => queries.push(json!({"key":key,"error":e.to_string()})),
+                    Err(_) => queries.push(json!({"key":key,"panic":true})),
+                }
+            };
+            for (lo, hi) in [(0u64, (1u64 << 32) + 5), (3, 1 << 33), (0, u64::MAX), (1 << 32, (1 << 32) + 200), (1, (1u64 << 32) + 1000 * 50)] {
+                run_q("u|num", V::U(lo), V::U(hi), Term::from_field_u64(ufield, lo), Term::from_field_u64(ufield, hi));
+            }
+            for (lo, hi) in [(i64::MIN, (1i64 << 32) + 5), (-3000, 1 << 33), (0, i64::MAX), (-1, (1 << 32) - 2500)] {
+                run_q("i|num", V::I(lo), V::I(hi), Term::from_field_i64(ifield, lo), Term::from_field_i64(ifield, hi));
+            }
+            tracer.emit(json!({"ev":"read","t":0,"phase":phase,"seg":ord,"nrows":sr.max_doc(),"rows":rows,"alive":alive,"cols":cols,"queries":queries,"unknown":unknown}));
         }
     };
     observe("commit", &mut rng);
@@ -698,6 +790,7 @@ fn main() {
             continue;
         }
         let case: Value = serde_json::from_str(&line).expect("case json");
+        BELOW_MIN.store(case["below_min"].as_bool().unwrap_or(false), std::sync::atomic::Ordering::SeqCst);
         if case["path"].as_str() == Some("index") {
             run_index(&tracer, &case);
         } else {
